@@ -86,6 +86,8 @@ pub fn pool() -> Vec<V> {
         V::s("°C"),
         V::s("°"),
         V::s("("),
+        V::s("(a)(x)?"),
+        V::s("(a)|(b)"),
         V::Bytes(vec![]),
         V::Bytes(vec![0xff, 0xfe]),
         V::Bytes(vec![97]),
@@ -483,6 +485,31 @@ fn run_long_list(idx: u64, acc: &mut Acc) {
     }
 }
 
+// ---- long texts in the places error messages quote ---------------------------------------------
+
+/// invalid sources that make the compiler quote user text; `#` is replaced by the text
+const QUOTING_ERRORS: [&str; 10] = ["1 \"#\"", "a.\"#\"", "f'{\"#\" + }'", "\"#\" \"#\"", "#", "a.# +", "[1, \"#\" 2]", "{\"#\" 1}", "x ? \"#\"", "f'{# #}'"];
+
+fn quoting_size() -> u64 {
+    // text = k ASCII letters followed by n three-byte letters: every alignment of a byte offset
+    (QUOTING_ERRORS.len() * 4 * 120) as u64
+}
+
+fn run_quoting(idx: u64, acc: &mut Acc) {
+    let d = unrank(idx, &[QUOTING_ERRORS.len() as u64, 4, 120]);
+    let (k, n) = (d[1] as usize, d[2] as usize + 1);
+    let text = format!("{}{}", "a".repeat(k), "\u{65e5}".repeat(n));
+    let src = QUOTING_ERRORS[d[0] as usize].replace('#', &text);
+    acc.nontrivial(&idx);
+    total(acc, "long text in a quoted position", &src, &[], json!({"ascii": k, "three_byte_letters": n}));
+    // the same text as a value handed to functions that build messages from it
+    if d[0] == 0 {
+        for e in ["int(s)", "timestamp(s)", "duration(s)", "s.matches(s)", "uomConvert(1, s, s)", "s.splitAt(1)", "1 + s", "s.nosuch()"] {
+            total(acc, "long text in a quoted position", e, &[("s", V::s(&format!("({}", text)))], json!({"ascii": k, "three_byte_letters": n}));
+        }
+    }
+}
+
 // ---- nesting ladders (child processes) --------------------------------------------
 
 pub const CONSTRUCTS: [&str; 26] = [
@@ -697,6 +724,7 @@ pub fn replay_families(t: Tier) -> Vec<Family<'static>> {
     vec![
         Family::new("characters", ch.size(), move |i, a| ch.run(i, a)),
         Family::new("long-lists", long_lists_size(), run_long_list),
+        Family::new("quoted-texts", quoting_size(), run_quoting),
         Family::new("ops", ops.size(), move |i, a| ops.run(i, a)),
         Family::new("builtins", bi.size(), move |i, a| bi.run(i, a)),
         Family::new("tokens", tk.size(), move |i, a| tk.run(i, a)),
@@ -706,7 +734,7 @@ pub fn replay_families(t: Tier) -> Vec<Family<'static>> {
 
 pub fn run(t: Tier) -> i32 {
     let mut rep = Report::new(ID, t, "exploration");
-    rep.rule = "ops: every unary/binary operator, index, `in`, ternary over all ordered pairs of a 57-value boundary pool in literal and bound forms; builtins: every name found in the repository's function/macro/type tables called as function and as method with every argument tuple of arity 0..2 over the pool, arity 3..N over a 13-value pool, 8 macro shapes, and 10 shapes with a member access, index, call, list or negation in the variable slot of a macro; tokens: every space-joined string of 1..N tokens over a 50-token alphabet (operators, brackets, keywords, identifiers, extreme literals, hostile lexemes); long-lists: lists of 2..200 elements taken in rotation from 7 pools of elements without a common order (numbers with NaN, strings, null, bytes, lists, maps, types, timestamps, durations) under sort, min, max and macros feeding sort, bound and literal; every name of the tables also as a match pattern in 4 shapes; characters: every string of 1..4 (thorough: 5) characters over 30 characters that take part in the inner structure of tokens (prefix letters b f r u x e, digits, point, both quotes, backslash, braces, brackets, comma, colon, signs, blank, line break, a two-byte letter, ?, #, NUL); ladders: 26 nesting constructs (incl. left-nested chains of every binary operator class, and values nested at run time by reduce over a bound list) at increasing depths, each rung in its own child process, in two build profiles and on 8 MiB and 2 MiB stacks. Oracle: outcome is a value, an error or a syntax error, never a panic, abort or hang. Non-trivial = the case got past the parser (tokens, characters) / the rung produced a value (ladders) / every ops and builtins case; distinct by case index".to_string();
+    rep.rule = "ops: every unary/binary operator, index, `in`, ternary over all ordered pairs of a 59-value boundary pool in literal and bound forms; builtins: every name found in the repository's function/macro/type tables called as function and as method with every argument tuple of arity 0..2 over the pool, arity 3..N over a 13-value pool, 8 macro shapes, and 10 shapes with a member access, index, call, list or negation in the variable slot of a macro; tokens: every space-joined string of 1..N tokens over a 50-token alphabet (operators, brackets, keywords, identifiers, extreme literals, hostile lexemes); quoted-texts: 10 invalid sources that make the compiler quote user text x texts of 0..3 ASCII letters followed by 1..120 three-byte letters (every alignment of a byte offset inside a message), and the same texts as arguments of message-building functions; long-lists: lists of 2..200 elements taken in rotation from 7 pools of elements without a common order (numbers with NaN, strings, null, bytes, lists, maps, types, timestamps, durations) under sort, min, max and macros feeding sort, bound and literal; every name of the tables also as a match pattern in 4 shapes; characters: every string of 1..4 (thorough: 5) characters over 30 characters that take part in the inner structure of tokens (prefix letters b f r u x e, digits, point, both quotes, backslash, braces, brackets, comma, colon, signs, blank, line break, a two-byte letter, ?, #, NUL); ladders: 26 nesting constructs (incl. left-nested chains of every binary operator class, and values nested at run time by reduce over a bound list) at increasing depths, each rung in its own child process, in two build profiles and on 8 MiB and 2 MiB stacks. Oracle: outcome is a value, an error or a syntax error, never a panic, abort or hang. Non-trivial = the case got past the parser (tokens, characters) / the rung produced a value (ladders) / every ops and builtins case; distinct by case index".to_string();
     let fams = replay_families(t);
     let n_ladder_bins = std::env::var("VERIF_DEV_BIN").map(|_| 2).unwrap_or(1);
     for f in fams {
